@@ -817,7 +817,9 @@ func scanDefs() []scanDef {
 	}
 	byCtxBelongs := func(s, r rec) bool { return bytes.Equal(s.ctx, r.ctx) && s.rBatch == r.rBatch }
 	byCtxLine := func(fn string) func(rec) string {
-		return func(s rec) string { return fmt.Sprintf("key fn=%s requestContextID=%x batchCounter=%d", fn, s.ctx, s.rBatch) }
+		return func(s rec) string {
+			return fmt.Sprintf("key fn=%s requestContextID=%x batchCounter=%d", fn, s.ctx, s.rBatch)
+		}
 	}
 	heightSubjects := func(u *universe) []rec {
 		var out []rec
@@ -894,13 +896,17 @@ func scanDefs() []scanDef {
 			name: "GetExpiredRequestBatchSubspace", keyKind: "GetExpiredRequestBatchKey", subjects: heightSubjects,
 			prefix:  func(s rec) []byte { return types.GetExpiredRequestBatchSubspace(s.height) },
 			belongs: func(s, r rec) bool { return s.height == r.height },
-			line:    func(s rec) string { return fmt.Sprintf("key fn=GetExpiredRequestBatchSubspace batchExpirationHeight=%d", s.height) },
+			line: func(s rec) string {
+				return fmt.Sprintf("key fn=GetExpiredRequestBatchSubspace batchExpirationHeight=%d", s.height)
+			},
 		},
 		{
 			name: "GetNewRequestBatchSubspace", keyKind: "GetNewRequestBatchKey", subjects: heightSubjects,
 			prefix:  func(s rec) []byte { return types.GetNewRequestBatchSubspace(s.height) },
 			belongs: func(s, r rec) bool { return s.height == r.height },
-			line:    func(s rec) string { return fmt.Sprintf("key fn=GetNewRequestBatchSubspace requestBatchHeight=%d", s.height) },
+			line: func(s rec) string {
+				return fmt.Sprintf("key fn=GetNewRequestBatchSubspace requestBatchHeight=%d", s.height)
+			},
 		},
 		{
 			name: "GetActiveRequestSubspace", keyKind: "GetActiveRequestKey",
@@ -1066,6 +1072,29 @@ func idSearch(u *universe, out *searchOut) {
 	}
 }
 
+// searchIDLengths: ids have FIXED length - the splitters must refuse every other length
+// (a longer byte string must not be decoded from its prefix, a request id must not pass as a context id).
+func searchIDLengths(out *searchOut) {
+	for n := 0; n <= 2*types.RequestIDLen; n++ {
+		id := make([]byte, n)
+		for i := range id {
+			id[i] = byte(i + 1)
+		}
+		if n != types.ContextIDLen {
+			if _, _, err := types.SplitRequestContextID(id); err == nil {
+				out.add(true, "ID fixed length ctx", fmt.Sprintf("ID length: SplitRequestContextID accepts %d bytes, ContextIDLen is %d", n, types.ContextIDLen),
+					fmt.Sprintf("splitctx id=%x", id))
+			}
+		}
+		if n != types.RequestIDLen {
+			if _, _, _, _, err := types.SplitRequestID(id); err == nil {
+				out.add(true, "ID fixed length req", fmt.Sprintf("ID length: SplitRequestID accepts %d bytes, RequestIDLen is %d", n, types.RequestIDLen),
+					fmt.Sprintf("splitreq id=%x", id))
+			}
+		}
+	}
+}
+
 func cmdKeysearch(args []string) int {
 	fs := flag.NewFlagSet("keysearch", flag.ExitOnError)
 	maxPer := fs.Int("max", 5, "findings printed per class")
@@ -1107,6 +1136,7 @@ func cmdKeysearch(args []string) int {
 	}
 	earnedFeesSearch(u, out)
 	idSearch(u, out)
+	searchIDLengths(out)
 
 	w := bufio.NewWriter(os.Stdout)
 	defer w.Flush()
